@@ -20,89 +20,17 @@ import SpecKitV.Gen.Utils
 import SpecKitV.Gen.Noise
 import SpecKitV.Gen.Dsp
 import SpecKitV.Gen.Analysis
+import SpecKitV.Drv.Base
+import SpecKitV.Drv.ExtNumpyKernels
+import SpecKitV.Drv.ExtRms
+import SpecKitV.Drv.ExtTimeShift
+import SpecKitV.Drv.ExtMiso
+import SpecKitV.Drv.ExtNoiseGens
+import SpecKitV.Drv.ExtFftNoise
+import SpecKitV.Drv.ExtLpsdCore
+import SpecKitV.Drv.ExtResultQueries
 
 namespace Drv
-
-def hexVal (c : Char) : Option Nat :=
-  if '0' ≤ c ∧ c ≤ '9' then some (c.toNat - '0'.toNat)
-  else if 'a' ≤ c ∧ c ≤ 'f' then some (c.toNat - 'a'.toNat + 10)
-  else none
-
-def parseHex (s : String) : Option UInt64 :=
-  s.foldl (fun acc c => match acc, hexVal c with
-    | some a, some v => some (a * 16 + v.toUInt64)
-    | _, _ => none) (some 0)
-
-def hexDigit (n : Nat) : Char := if n < 10 then Char.ofNat (48 + n) else Char.ofNat (87 + n)
-
-def toHex (u : UInt64) : String :=
-  String.ofList ((List.range 16).map (fun i => hexDigit ((u >>> (60 - 4 * i).toUInt64) &&& 15).toNat))
-
-def fmt (x : Float) : String := toHex x.toBits
-
-/-- token reader -/
-structure R where
-  toks : Array String
-  pos : Nat := 0
-
-abbrev M := StateT R (Except String)
-
-def tok : M String := do
-  let r ← get
-  if h : r.pos < r.toks.size then
-    set { r with pos := r.pos + 1 }
-    return r.toks[r.pos]
-  else throw "eol"
-
-def nat : M Nat := do
-  let t ← tok
-  match t.toNat? with
-  | some n => return n
-  | none => throw s!"nat:{t}"
-
-def int : M Int := do
-  let t ← tok
-  match t.toInt? with
-  | some n => return n
-  | none => throw s!"int:{t}"
-
-def flt : M Float := do
-  let t ← tok
-  match parseHex t with
-  | some u => return Float.ofBits u
-  | none => throw s!"float:{t}"
-
-def fltArr : M (Array Float) := do
-  let n ← nat
-  let mut a := Array.mkEmpty n
-  for _ in [0:n] do
-    a := a.push (← flt)
-  return a
-
-def natArr : M (Array Nat) := do
-  let n ← nat
-  let mut a := Array.mkEmpty n
-  for _ in [0:n] do
-    a := a.push (← nat)
-  return a
-
-def nan : Float := 0.0 / 0.0
-def arrF (a : Array Float) : Arr Float := ⟨a.size, fun i => a.getD i nan⟩
-def arrN (a : Array Nat) : Arr Nat := ⟨a.size, fun i => a.getD i 0⟩
-def fnF (a : Array Float) : Nat → Float := fun i => a.getD i nan
-
-def arr2 : M (Arr2 Float) := do
-  let n ← nat
-  let m ← nat
-  let mut a := Array.mkEmpty (n * m)
-  for _ in [0:n * m] do
-    a := a.push (← flt)
-  return ⟨n, m, fun i j => a.getD (i * m + j) nan⟩
-
-def fmt5 (t : Float × Float × Float × Float × Float) : String :=
-  s!"{fmt t.1} {fmt t.2.1} {fmt t.2.2.1} {fmt t.2.2.2.1} {fmt t.2.2.2.2}"
-
-def joinF (l : List Float) : String := " ".intercalate (l.map fmt)
 
 /-- generated kernels (Numba and CUDA host functions) -/
 def opKernel : M String := do
@@ -525,7 +453,10 @@ def dispatch : M String := do
   | "gencoeffs" => opGenCoeffs
   | "genutil" => opGenUtil
   | "ping" => pure "pong"
-  | _ => throw s!"op:{op}"
+  | _ =>
+    match (ExtNumpyKernels.dispatch op <|> ExtRms.dispatch op <|> ExtTimeShift.dispatch op <|> ExtMiso.dispatch op <|> ExtNoiseGens.dispatch op <|> ExtFftNoise.dispatch op <|> ExtLpsdCore.dispatch op <|> ExtResultQueries.dispatch op) with
+    | some h => h
+    | none => throw s!"op:{op}"
 
 def handle (line : String) : String :=
   let toks := (line.trimAscii.toString.splitOn " ").filter (· ≠ "") |>.toArray
